@@ -161,7 +161,7 @@ DAfter(e)   == IF e.op = "call" THEN DynAdopt(D, e)
 InputsDetermined(e) ==
     e.op \in {"call", "set_value", "clear_at", "clear", "clear_all", "set_ref",
               "del_ref", "set_formula", "set_cached", "set_allow_none",
-              "set_recalc"} \/ ~Accepted(e)
+              "set_recalc", "write_read", "get_item"} \/ ~Accepted(e)
 
 -----------------------------------------------------------------------------
 (* Binding of a logged event to the property predicates of MxProps.        *)
@@ -188,6 +188,8 @@ EventViol(e, D2, ta) ==
          ELSE {}
     ELSE IF ~Accepted(e)
     THEN RejectedLabels(Tag, pdefs, e.post.defs, data, dl)
+    ELSE IF e.op = "write_read"
+    THEN WriteReadLabels(Tag, D2, e, pdefs, data, dl)
     ELSE IF e.op \in {"set_value", "clear_at"}
     THEN ValueEditLabels(Tag, D, D2, e.op = "set_value", NodeOfEv(D, e), data, dl, e.fx,
                          Opt(Tr.hdr, "recalc", FALSE), taint)
